@@ -701,6 +701,10 @@ class PortNamespace(collections.abc.MutableMapping, Port):
                 port_value = port_values[name]
 
             if isinstance(port, PortNamespace):
+                # Pre-processing fills in the mapping it is given: hand it a copy, such that a declared default (which
+                # belongs to the spec) is not the object that gets filled in
+                if isinstance(port_value, collections.abc.Mapping):
+                    port_value = dict(port_value)
                 port_values[name] = port.pre_process(port_value)
             else:
                 port_values[name] = port_value
